@@ -65,6 +65,11 @@ CHECKS = {
                      "vertex list is the original with the junctions P_i + n(P_{i+1}-P_i) inserted in order, no piece with library-equal end points, signed area unchanged, "
                      "identity sharing; with concrete parameters and a symbolic translation: clean() restores the segmentation, is idempotent, and the split curve == the original.",
                 technique="symbolic execution of the real code (SYMX) + z3 per path cell"),
+    "C17": dict(level="model_checking", design="4/C17",
+                text="One closed chain with all control points symbolic (segment degrees 1..3) through from_ctrlpoints / from_segments / from_vertices under SYMX: identical "
+                     "vertices, segments, degrees and shared junction objects, exact area, box() = bounding box of the control points over all min/max path cells, sign of "
+                     "float(curve) = orientation; chains with a symbolic junction gap are rejected on every path where the gap exceeds 1e-9.",
+                technique="symbolic execution of the real code (SYMX) + z3 per path cell"),
 }
 NA = {}
 
